@@ -826,6 +826,8 @@ def ext_expr(cx, e, s):
         return e[s[1]]
     if k == 'pred':
         return e[NamedPred(s[1], make_user(cx, s[2]))]
+    if k == 'bad':
+        return e[{'float': 1.5, 'none': None, 'dict': {}, 'list': [0]}[s[1]]]
     return _build_path(cx, [s], root=e)
 
 
